@@ -1,9 +1,135 @@
+(* C02 -- annotations are enforced exactly: error iff the value is outside the annotated type.   (PARTIAL)
+   Property theorems only; each is closed by [exact] (or by computation on a closed witness) and followed by
+   Print Assumptions.  Model: Match/Model.v (ground, type-variable-free fragment of matcher.py + the three
+   enforcement sites); builtin class table: Generated/C02_Builtins.v, regenerated from pytype's loaded stubs on
+   every run.
+
+   Reading guide.  [matches tb (abs v) t] is what _check_return / check_annotation_type_mismatch compute for the
+   value expression v and the annotation t (every view must match); [matches_any] is what an argument site
+   computes (match_all_views=False).  [inhabits tb v t] is PEP 484 membership of the run-time value, as the
+   property names it.  [inhabitsF pytype_devs] is membership with six named local deviations switched on
+   (Model.v, record [devs]); [slices v] are the monomorphic slices of v (one element kept per container), the
+   concrete counterpart of pytype's views. *)
 From Coq Require Import List Arith Bool.
-From PV Require Import Match.Model Match.Proofs Generated.C02_Builtins.
+From PV Require Import Match.Model Match.Proofs Match.SliceExact Match.Witnesses Generated.C02_Builtins.
 Import ListNotations.
-Definition tb0 : table := {| t_b := gen_builtins; t_u := [] |}.
+
+(* ---- the full statement is refuted on the faithful model ------------------------------------------------ *)
+
+(* the table of this run: regenerated builtins + the harness' default 6-class / 3-protocol hierarchy
+   K0; K1(K0); K2(K1) defines m0; K3 defines m0, m1; K4(K3, K0); K5(K0) defines m1; P0 = {m0}; P1 = {m1};
+   P2 = {m0, m1} *)
+(* the regenerated table satisfies everything the proofs assume about it (fails closed when the stubs drift) *)
+Theorem generated_table_ok : table_ok tb0 = true.
+Proof. exact generated_table_ok_w. Qed.
+Print Assumptions generated_table_ok.
+
+(* "a" is a Sequence[str] under PEP 484, pytype reports an error at all three sites *)
 Theorem enforcement_exact_refuted :
   exists v t, table_ok tb0 = true /\ wf_ty tb0 t = true /\ wf_val tb0 v = true /\
-              matches tb0 (abs v) t <> inhabits tb0 v t.
-Proof. exists (VScalar SStr), (TCls (CB B_t_Sequence) [TCls (CB B_str) []]). vm_compute. repeat split; discriminate. Qed.
+              matches tb0 (abs v) t <> inhabits tb0 v t /\
+              err_arg tb0 v t = true /\ err_ret tb0 v t = true /\ err_assign tb0 v t = true /\
+              inhabits tb0 v t = true.
+Proof. exact refuted_w. Qed.
 Print Assumptions enforcement_exact_refuted.
+
+(* ---- what the matcher computes, exactly ----------------------------------------------------------------- *)
+
+(* return and annotated-assignment sites: every monomorphic slice of the value must be a member, membership
+   being PEP 484 membership with the six named deviations; any class table accepted by table_ok, unbounded
+   nesting depth of annotation and value *)
+Theorem matcher_characterisation : forall tb v t,
+  table_ok tb = true -> wf_ty tb t = true -> wf_val tb v = true ->
+  matches tb (abs v) t = forallb (inhabitsF pytype_devs tb t) (slices v).
+Proof. exact matches_all_char. Qed.
+Print Assumptions matcher_characterisation.
+
+(* argument site: one member slice suffices *)
+Theorem arg_site_characterisation : forall tb v t,
+  table_ok tb = true -> wf_ty tb t = true -> wf_val tb v = true ->
+  matches_any tb (abs v) t = existsb (inhabitsF pytype_devs tb t) (slices v).
+Proof. exact matches_any_char. Qed.
+Print Assumptions arg_site_characterisation.
+
+(* the views pytype enumerates for the literal are exactly the abstractions of the slices *)
+Theorem views_are_slices : forall v, views (abs v) = map abs1 (slices v).
+Proof. exact views_abs. Qed.
+Print Assumptions views_are_slices.
+
+(* ---- exactness away from the deviations -------------------------------------------------------------------- *)
+
+(* If no named deviation changes the verdict on a slice, and membership of v in t is decided slice-wise
+   (sufficient: see union_simple / tupleof_free in Model.v), then the return / assignment verdict is exactly
+   PEP 484 membership.  The first hypothesis fails exactly on the deviation cases; the witness above
+   ("a", Sequence[str]) is one of them. *)
+Theorem enforcement_exact_partial : forall tb v t,
+  table_ok tb = true -> wf_ty tb t = true -> wf_val tb v = true ->
+  (forall s, In s (slices v) -> inhabitsF pytype_devs tb t s = inhabits tb s t) ->
+  forallb (fun s => inhabits tb s t) (slices v) = inhabits tb v t ->
+  matches tb (abs v) t = inhabits tb v t.
+Proof. exact exact_partial. Qed.
+Print Assumptions enforcement_exact_partial.
+
+(* A syntactic sufficient condition for the second hypothesis: unions with at most one option that looks
+   inside the value (Optional[List[int]], Union[int, str, None], ... but not Union[List[int], List[str]]) and
+   values without tuple(...) calls. *)
+Theorem slice_exact_sufficient : forall tb v t,
+  union_simple t = true -> tupleof_free v = true ->
+  forallb (fun s => inhabits tb s t) (slices v) = inhabits tb v t.
+Proof. exact slice_exact. Qed.
+Print Assumptions slice_exact_sufficient.
+
+(* ... hence: on that syntactic class the only way to get a wrong verdict at a return / assignment site is
+   one of the six local deviations changing the verdict of a slice *)
+Theorem enforcement_exact_syntactic : forall tb v t,
+  table_ok tb = true -> wf_ty tb t = true -> wf_val tb v = true ->
+  union_simple t = true -> tupleof_free v = true ->
+  (forall s, In s (slices v) -> inhabitsF pytype_devs tb t s = inhabits tb s t) ->
+  matches tb (abs v) t = inhabits tb v t.
+Proof. exact exact_syntactic. Qed.
+Print Assumptions enforcement_exact_syntactic.
+
+(* site glue: an error is logged iff ... *)
+Theorem sites_exact_partial : forall tb v t,
+  table_ok tb = true -> wf_ty tb t = true -> wf_val tb v = true ->
+  (forall s, In s (slices v) -> inhabitsF pytype_devs tb t s = inhabits tb s t) ->
+  forallb (fun s => inhabits tb s t) (slices v) = inhabits tb v t ->
+  err_ret tb v t = negb (inhabits tb v t) /\
+  (is_none v = false -> err_assign tb v t = negb (inhabits tb v t)) /\
+  (slices v = [v] -> err_arg tb v t = negb (inhabits tb v t)).
+Proof. exact sites_partial. Qed.
+Print Assumptions sites_exact_partial.
+
+(* ---- every named deviation is real on the faithful model (each one is reproduced on pytype by the check) -- *)
+(* statement: Match/Witnesses.v, deviations_stmt (one conjunct per named deviation: the model's verdict and the
+   oracle's verdict on a concrete (value, annotation)) *)
+Theorem deviations_real : deviations_stmt.
+Proof. exact deviations_w. Qed.
+Print Assumptions deviations_real.
+
+(* ---- non-vacuity ------------------------------------------------------------------------------------------- *)
+(* the hypotheses of enforcement_exact_partial hold on non-trivial instances, with both verdicts occurring *)
+Definition ex_t1 : ty := Cb B_dict [Cb B_str []; TUnion [Cb B_list [TTuple [Cb B_float []; K 0]]; NoneT]].
+Definition ex_v1 : value :=                       (* {"a": [(1, K1()), (2.5, K4())], "b": None} *)
+  VDict [Str; Str] [VColl KList [VTuple [Int; VInst 1]; VTuple [VScalar SFloat; VInst 4]]; NoneV].
+Definition ex_v2 : value :=                       (* {"a": [(1, K3())]}: K3 is not a K0 *)
+  VDict [Str] [VColl KList [VTuple [Int; VInst 3]]].
+Definition hyps (v : value) (t : ty) : bool :=
+  table_ok tb0 && wf_ty tb0 t && wf_val tb0 v && union_simple t && tupleof_free v &&
+  forallb (fun s => Bool.eqb (inhabitsF pytype_devs tb0 t s) (inhabits tb0 s t)) (slices v) &&
+  Bool.eqb (forallb (fun s => inhabits tb0 s t) (slices v)) (inhabits tb0 v t).
+Example hyps_hold_member : hyps ex_v1 ex_t1 = true /\ inhabits tb0 ex_v1 ex_t1 = true /\
+                           matches tb0 (abs ex_v1) ex_t1 = true /\ length (slices ex_v1) = 6.
+Proof. vm_compute. repeat split; reflexivity. Qed.
+Example hyps_hold_nonmember : hyps ex_v2 ex_t1 = true /\ inhabits tb0 ex_v2 ex_t1 = false /\
+                              err_ret tb0 ex_v2 ex_t1 = true /\ err_arg tb0 ex_v2 ex_t1 = true.
+Proof. vm_compute. repeat split; reflexivity. Qed.
+(* promotion, nominal subclassing through the table, structural protocol, Type[C], callable arity *)
+Example members :
+  inhabits tb0 (VColl KList [Int; VScalar SBool]) (Cb B_t_Sequence [Cb B_complex []]) = true /\
+  inhabits tb0 (VInst 2) (K 0) = true /\ inhabits tb0 (VInst 0) (K 2) = false /\
+  inhabits tb0 (VInst 4) (K 8) = true /\ inhabits tb0 (VInst 2) (K 8) = false /\
+  inhabits tb0 (VClass (CU 2)) (Cb B_type [K 1]) = true /\ inhabits tb0 (VClass (CB B_int)) (Cb B_type [Cb B_float []]) = true /\
+  inhabits tb0 (VFunc 1 1 false) (TCallable [TAny; TAny] TAny) = true /\
+  inhabits tb0 (VFunc 1 1 false) (TCallable [TAny; TAny; TAny] TAny) = false.
+Proof. vm_compute. repeat split; reflexivity. Qed.
